@@ -55,6 +55,10 @@ pub struct Stats {
     pub wraps: u32,
     /// per successful connect: (transport, unresolved requests, owed/optional acks) at that moment
     pub inflight_at_conn: Vec<(usize, u32, u32)>,
+    /// per connect attempt: (transport, bytes of the packets the client retains in its transmit
+    /// arena according to the wire, whether that figure is certain - every request that may have
+    /// been enqueued has been seen on the wire)
+    pub retained_at_conn_start: Vec<(usize, usize, bool)>,
 }
 
 #[derive(Clone, Copy, Debug, PartialEq, Eq)]
@@ -293,6 +297,22 @@ impl<'a> Model<'a> {
     }
 
     fn on_conn_start(&mut self, tr: usize) {
+        {
+            let bytes: usize = self.unresolved().filter(|(_, f)| f.phase == Phase::AwaitAck).map(|(_, f)| f.first_tx.as_ref().map(|b| b.len()).unwrap_or(0)).sum();
+            let reqs = &self.v.trace.requests;
+            let certain = !(0..reqs.len()).any(|q| {
+                !self.req_matched[q]
+                    && reqs[q].op >= self.epoch_first_op
+                    && reqs[q].op < self.ops_started
+                    && match &reqs[q].packet {
+                        Some(Packet::Publish(pb)) => pb.qos > 0,
+                        Some(Packet::Subscribe { .. }) | Some(Packet::Unsubscribe { .. }) => true,
+                        _ => false,
+                    }
+                    && !matches!(&self.v.trace.ops[reqs[q].op].res, OpRes::Err(e) if Self::is_refusal(e))
+            });
+            self.stats.retained_at_conn_start.push((tr, bytes, certain));
+        }
         self.cur_tr = Some(tr);
         self.cur_op = None;
         for f in self.flights.iter_mut() {
